@@ -39,8 +39,8 @@ type Finding struct {
 	Obligation string `json:"obligation"` // exact obligation name
 	Status     string `json:"status"`     // open | fixed
 	Commit     string `json:"commit,omitempty"`
-	WhatFails  string `json:"what_fails"`
-	Replay     string `json:"replay,omitempty"` // replay scenario name
+	WhatFails  string      `json:"what_fails"`
+	Replay     *ReplaySpec `json:"replay,omitempty"`
 }
 
 func loadFindings() []Finding {
@@ -106,10 +106,14 @@ func check(prop, tier string) int {
 	defer os.RemoveAll(smtDir)
 
 	violations := 0
+	var curReplay *ReplaySpec
 	violate := func(obName, reason, body string, found bool) {
 		violations++
 		path := filepath.Join(replayDir, sanitizeFile(obName)+".json")
 		rec := map[string]interface{}{"property": prop, "obligation": obName, "reason": reason, "solver_output": body, "failing_input_found": found}
+		if curReplay != nil {
+			rec["replay"] = curReplay
+		}
 		b, _ := json.MarshalIndent(rec, "", " ")
 		os.WriteFile(path, b, 0o644)
 		suffix := ""
@@ -221,11 +225,58 @@ func check(prop, tier string) int {
 			continue
 		}
 		body := r.Status + " " + r.Solver + "\n" + r.Detail + "\n" + trimModel(r.Model)
-		violate(o.Name, "obligation-"+r.Status, body, false)
+		found := false
+		for i := range findings {
+			if findings[i].Obligation == o.Name && findings[i].Replay != nil {
+				// a finding recorded as fixed fails again: replay its input
+				if rep, out, err := runReplay(*findings[i].Replay); err == nil && rep {
+					found = true
+					body += "\n--- replay ---\n" + out
+				}
+				curReplay = findings[i].Replay
+			}
+		}
+		violate(o.Name, "obligation-"+r.Status, body, found)
+		curReplay = nil
+	}
+	// replays of every listed finding of this property: an open one is expected to reproduce, a fixed one
+	// must not reproduce (if it does, the violation is back — reported with its concrete input).
+	replayLog := []map[string]interface{}{}
+	failedNames := map[string]bool{}
+	for _, r := range results {
+		if !r.Ob.MustFail && r.Ob.Kind != "aux" && r.Status != "unsat" {
+			failedNames[r.Ob.Name] = true
+		}
+	}
+	for i := range findings {
+		fd := &findings[i]
+		if fd.Property != prop || fd.Replay == nil {
+			continue
+		}
+		rep, out, err := runReplay(*fd.Replay)
+		entry := map[string]interface{}{"finding": fd.ID, "status": fd.Status, "reproduced": rep}
+		if err != nil {
+			entry["error"] = err.Error()
+		}
+		replayLog = append(replayLog, entry)
+		if err != nil {
+			curReplay = fd.Replay
+			violate(fd.Obligation, "replay-error", err.Error()+"\n"+out, false)
+			curReplay = nil
+			continue
+		}
+		if fd.Status == "fixed" && rep {
+			curReplay = fd.Replay
+			violate(fd.Obligation, "fixed-finding-"+fd.ID+"-reproduces-again", out, true)
+			curReplay = nil
+		}
+		if fd.Status == "open" && !rep && !failedNames[fd.Obligation] {
+			fmt.Printf("NOTE: open finding %s no longer reproduces and its obligation is discharged; update known_findings.jsonl\n", fd.ID)
+		}
 	}
 	// open findings whose obligation no longer exists: report (the contract moved)
 	writeEvidence(prop, tier, seed, time.Since(t0).Seconds(), recs, nObl, nDis, funcs, assumed, bySolver, violations, spec, map[string]interface{}{
-		"solver_seconds": round3(solverTime), "known_findings_seen": knownSeen, "aux_not_proved": auxFailed, "dropped_statements": dropped, "timeout_s": timeout})
+		"solver_seconds": round3(solverTime), "known_findings_seen": knownSeen, "aux_not_proved": auxFailed, "dropped_statements": dropped, "timeout_s": timeout, "finding_replays": replayLog})
 	if violations > 0 {
 		return 1
 	}
